@@ -47,7 +47,7 @@ CHECKS = {
     ),
     "C09": dict(
         engine="exact-replay",
-        technique="TLC exact evaluation of IwpExact.tla / ExpGramExact.tla (closed forms + semigroup, Chapman-Kolmogorov, Lyapunov laws as invariants) and replay into the real priors and gram_util",
+        technique="TLC exact evaluation of IwpExact.tla / ExpGramExact.tla / MaternExact.tla / OuExact.tla (closed forms + semigroup, Chapman-Kolmogorov, Lyapunov laws as invariants) and replay into the real priors and gram_util",
         text=(
             "IwpExact.tla defines the Taylor/Pascal transition and Hilbert-type process noise of the integrated Wiener "
             "process, ExpGramExact.tla the matrix exponential and finite-horizon Gramian of nilpotent drifts as finite "
@@ -55,12 +55,16 @@ CHECKS = {
             "linearity in the output scale, the integral definition and the Lyapunov identity as invariants. Every "
             "instance is replayed into the dense/isotropic/block-diagonal Wiener priors (transition, preconditioner "
             "removal, merge), the dense exponential / integrated-OU priors and exp_gram_cholesky with all five "
-            "Pade/Legendre orders in float64 and float32."
+            "Pade/Legendre orders in float64 and float32. MaternExact.tla (drift = companion of (s+z)^D, a scalar shift of a "
+            "nilpotent matrix) and OuExact.tla (scalar-rate integrated OU: spectral projector + nilpotent part) export the "
+            "exact rational pieces of transition and Gramian; the harness multiplies in the scalar factors e^{-zh} and "
+            "int s^m e^{-cs} ds and compares with prior_matern(_diffuse) / prior_ornstein_uhlenbeck_integrated(_diffuse), "
+            "including diffuse derivatives and merged transitions."
         ),
-        design_ref="DESIGN.md 3.3, 4 (C09)",
+        design_ref="DESIGN.md 3.3, 4 (C09), 11.1",
         note=(
             "Trusted: TLC's range-checked rational arithmetic (Rat.tla), tolerances 1e-9 / 1e-11 (float64), 2e-4 (float32). "
-            "Not covered: drifts with non-zero spectrum (OU with a rate, Matern) - transcendental, no exact model; q <= 6, n*d <= 6."
+            "Not covered: general non-nilpotent, non-diagonal rate matrices (transcendental, no exact model); q <= 6, n*d <= 6; Matern / OU up to 4 coefficients, the two scalar transcendental factors come from math.exp / scipy.special.gammainc."
         ),
     ),
     "C03": dict(
